@@ -102,8 +102,11 @@ func conflictSet(i int64, seed int64) []file {
 		for _, n := range []string{"nsa", "nsb", "nsc"}[:2+r.Intn(2)] {
 			fs = append(fs, file{n + ".yang", fmt.Sprintf("module %s { namespace \"urn:shared\"; prefix %s; %s container c%s { leaf l { type string; } } }", n, n, pick("", "revision 2020-01-01;"), n)})
 		}
-		fs = append(fs, file{"two1.yang", "module two { namespace \"urn:two\"; prefix two; revision 2019-01-01; container t { leaf old { type string; } } }"})
-		fs = append(fs, file{"two2.yang", "module two { namespace \"urn:two\"; prefix two; revision 2020-01-01; container t { leaf new { type string; } } }"})
+		// (both revisions derive an identity of one name from an identity of another module:
+		// two entries of one list that differ in nothing but the revision)
+		fs = append(fs, file{"idb.yang", "module idb { namespace \"urn:idb\"; prefix idb; identity base; leaf r { type identityref { base base; } } }"})
+		fs = append(fs, file{"two1.yang", "module two { namespace \"urn:two\"; prefix two; import idb { prefix b; } revision 2019-01-01; identity foo { base b:base; } identity bar { base foo; } container t { leaf old { type string; } } }"})
+		fs = append(fs, file{"two2.yang", "module two { namespace \"urn:two\"; prefix two; import idb { prefix b; } revision 2020-01-01; identity foo { base b:base; } identity bar { base foo; } container t { leaf new { type string; } } }"})
 		fs = append(fs, file{"user.yang", "module user { namespace \"urn:user\"; prefix user; import nsa { prefix a; } import two { prefix t; " + pick("", "revision-date 2019-01-01;") + " } augment /a:cnsa { leaf fromuser { type string; } } augment /t:t { leaf fromuser { type string; } } }"})
 	case 12: // rings of typedefs of length 2-4 that run through union members, plain chains, or both; in one module or across modules
 		n := 2 + r.Intn(3)
